@@ -199,8 +199,12 @@ struct Run {
             }
         }
         violations_total++;
-        if (!new_violations.count(sig) && new_violations.size() < 200)
-            new_violations[sig] = Violation{sig, check, desc, index};
+        auto it = new_violations.find(sig);
+        if (it == new_violations.end()) {
+            if (new_violations.size() < 400)
+                new_violations[sig] = Violation{sig, check, desc, index};
+        } else if (it->second.check == check && index < it->second.index)
+            it->second = Violation{sig, check, desc, index};
         return true;
     }
 
@@ -404,6 +408,7 @@ struct CaseSet {
     double hang_s = 20;                                   // per-case wall limit
     std::vector<std::string> counter_names;               // names for Ctx::count slots
     int jobs = 0;                                         // 0 = opts().jobs
+    std::set<long long> bad;                              // out: indices that violated, crashed or hung (quarantine)
 };
 
 namespace detail
@@ -607,6 +612,7 @@ inline void run_cases(CaseSet &cs)
         }
         std::string sig = cs.crash_sig ? cs.crash_sig(s.first, oc) : cs.name + ":" + oc + ":" + d;
         R.violation(sig, cs.name, s.first, oc + " in " + d);
+        cs.bad.insert(s.first);
         R.counters[cs.name + ":crash_or_hang_cases"]++;
     }
     // merge
@@ -625,6 +631,7 @@ inline void run_cases(CaseSet &cs)
             if (line[0] == 'V') {
                 size_t a = line.find('\t', 2), b = line.find('\t', a + 1);
                 long long idx = atoll(line.substr(2, a - 2).c_str());
+                cs.bad.insert(idx);
                 R.violation(line.substr(a + 1, b - a - 1), cs.name, idx, detail::unjson(line.substr(b + 1)));
             } else if (line[0] == 'O') {
                 if (R.outcomes.size() < 100000)
